@@ -411,6 +411,20 @@ def run(tier, seed, only=None):
         functionals(rep, tier, timeout)
     if not only or "group" in only:
         group_level(rep, tier, timeout)
+        atmos_group_level(rep, tier, timeout)
+        from props import groups
+        from openaerostruct.aerodynamics.functionals import VLMFunctionals
+        from openaerostruct.functionals.total_aero_performance import TotalAeroPerformance
+        from openaerostruct.functionals.total_performance import TotalPerformance
+
+        fam = "every component of the group works on the group's own variables of the same name"
+        sa = K.surface(2, 3, True, with_viscous=True, with_wave=True)
+        sb = K.surface(2, 2, True, name="tail")
+        groups.wiring_check(rep, lambda: VLMFunctionals(surface=sa), "VLMFunctionals(viscous, wave)", fam, timeout)
+        for user in (False, True):
+            groups.wiring_check(rep, lambda user=user: TotalAeroPerformance(surfaces=[sa, sb], user_specified_Sref=user), "TotalAeroPerformance(user_specified_Sref=%s)" % user, fam, timeout)
+            groups.wiring_check(rep, lambda user=user: TotalPerformance(surfaces=[sa, sb], user_specified_Sref=user, internally_connect_fuelburn=True),
+                                "TotalPerformance(user_specified_Sref=%s)" % user, fam, timeout)
     if not only or "atmos" in only:
         atmosphere(rep, tier, timeout)
     rep.bounds["surfaces"] = "1-2 (quick), 1-3 (thorough)"
@@ -435,3 +449,47 @@ def replay_file(path):
         return 0
     print("VIOLATION property=%s replay=%s" % (PID, path))
     return 1
+
+
+def atmos_group_level(rep, tier, timeout):
+    """the real AtmosGroup through its own wiring: the Reynolds number per length it publishes is rho v / mu of the
+    density, speed and viscosity of the same group (units as connected), and v = Mach * speed_of_sound"""
+    import warnings
+    from fractions import Fraction
+
+    import openmdao.api as om
+    from openaerostruct.common.atmos_group import AtmosGroup
+    from symoas import pipe
+    from symoas.sym import lt
+
+    extra, ac = atmos_stubs()
+    prob = om.Problem(reports=False)
+    prob.model.add_subsystem("atm", AtmosGroup(), promotes=["*"])
+    with warnings.catch_warnings():
+        warnings.simplefilter("ignore")
+        prob.setup()
+        prob.final_setup()
+    rep.encode(AtmosGroup)
+    alt, mach = symarray("altitude", (1,)), symarray("Mach_number", (1,))
+    rng_ = [ge(alt[0], const(Fraction(34000))), lt(alt[0], const(Fraction(37000)))]
+    GP = pipe.GroupPipe(prob, extra=extra)
+    GP.run(external={"altitude": alt, "Mach_number": mach}, assumptions=rng_)
+    g = lambda n: S(np.asarray(GP.get(n), dtype=object).ravel()[0])
+    obs = [oblig.Ob("re == rho v / mu", lhs=g("re") * g("mu"), rhs=g("rho") * g("v"), assume=rng_, meta={"family": "Reynolds number per length is rho v / mu of the same group"}),
+           oblig.Ob("v == M a", lhs=g("v"), rhs=mach[0] * g("speed_of_sound"), assume=rng_, meta={"family": "v = Mach * speed of sound of the same group"})]
+
+    def rp(ob, env):
+        p2 = om.Problem(reports=False)
+        p2.model.add_subsystem("atm", AtmosGroup(), promotes=["*"])
+        with warnings.catch_warnings():
+            warnings.simplefilter("ignore")
+            p2.setup()
+        p2.set_val("altitude", 35500.0)
+        p2.set_val("Mach_number", 0.7)
+        p2.run_model()
+        v_ = {n: float(p2.get_val(n)[0]) for n in ("re", "rho", "v", "mu", "speed_of_sound")}
+        bad = model.differs(v_["re"], v_["rho"] * v_["v"] / v_["mu"], 1e-9) or model.differs(v_["v"], 0.7 * v_["speed_of_sound"], 1e-9)
+        return bad, "real AtmosGroup at 35 500 ft, M 0.7: re = %.9g, rho v / mu = %.9g, v = %.9g, M a = %.9g" % (v_["re"], v_["rho"] * v_["v"] / v_["mu"], v_["v"], 0.7 * v_["speed_of_sound"])
+
+    run_obligations(rep, "real AtmosGroup: wiring", obs, timeout, replay=rp, levels=(1, 2), family=lambda ob: "AtmosGroup: " + ob.meta["family"],
+                    fixed={"altitude[0]": 35500.0, "Mach_number[0]": 0.7})
